@@ -41,32 +41,29 @@ func checkC15(e *Engine, r *Report) {
 	da := e.Fn(pkgEvmVM, "cStateDb.DestroyAccount")
 	addrP := da.Params[1]
 
-	find1 := func(fn *ssa.Function, pred func(ssa.CallInstruction) bool) ssa.CallInstruction {
-		cs := callsIn(fn, false, pred)
-		if len(cs) == 0 {
-			return nil
-		}
-		return cs[0]
-	}
-	getAcc := find1(da, func(c ssa.CallInstruction) bool { return isMethodNamed(c, "GetAccount") })
-	remove := find1(da, func(c ssa.CallInstruction) bool { return isMethodNamed(c, "RemoveAccount") })
-	burn := find1(da, func(c ssa.CallInstruction) bool {
+	// DestroyAccount together with private helpers split off from it (each called from one site inside the region):
+	// path rules run on the stitched control-flow graph, so "extract method" refactorings keep the guards visible
+	reg := e.privateRegion(da)
+	sg := reg.Supergraph()
+	getAcc := reg.First(func(c ssa.CallInstruction) bool { return isMethodNamed(c, "GetAccount") })
+	remove := reg.First(func(c ssa.CallInstruction) bool { return isMethodNamed(c, "RemoveAccount") })
+	burn := reg.First(func(c ssa.CallInstruction) bool {
 		return isCallTo(c, CallSpec{pkgEvmVM, "cStateDb", "burnCoins"})
 	})
-	delCode := find1(da, func(c ssa.CallInstruction) bool { return isMethodNamed(c, "DeleteCodeHash") })
-	forEach := find1(da, func(c ssa.CallInstruction) bool { return isMethodNamed(c, "ForEachStorage") })
-	check := find1(da, func(c ssa.CallInstruction) bool { return isCallTo(c, specCheckDestroyAt, specCheckDestroy) })
+	delCode := reg.First(func(c ssa.CallInstruction) bool { return isMethodNamed(c, "DeleteCodeHash") })
+	forEach := reg.First(func(c ssa.CallInstruction) bool { return isMethodNamed(c, "ForEachStorage") })
+	check := reg.First(func(c ssa.CallInstruction) bool { return isCallTo(c, specCheckDestroyAt, specCheckDestroy) })
 
 	// guards
 	var gNil, gOK []Guard
 	if getAcc != nil {
 		accV := getAcc.(ssa.Value)
-		for _, i := range ifs(da) {
+		for _, i := range sg.Ifs() {
 			b, ok := i.Cond.(*ssa.BinOp)
 			if !ok || (b.Op != token.NEQ && b.Op != token.EQL) {
 				continue
 			}
-			if (b.X == accV && isNilConst(b.Y)) || (b.Y == accV && isNilConst(b.X)) {
+			if (reg.Resolve(b.X) == accV && isNilConst(b.Y)) || (reg.Resolve(b.Y) == accV && isNilConst(b.X)) {
 				s := 1 // NEQ: nil on false edge
 				if b.Op == token.EQL {
 					s = 0
@@ -76,8 +73,8 @@ func checkC15(e *Engine, r *Report) {
 		}
 	}
 	if check != nil {
-		for _, g := range boolCallGuards(da, true, func(c *ssa.Call) bool { return ssa.CallInstruction(c) == check }) {
-			if endsInPanicRegion(g.failBlock()) {
+		for _, g := range reg.BoolCallGuards(true, func(c *ssa.Call) bool { return ssa.CallInstruction(c) == check }) {
+			if sg.EndsInPanic(g.failBlock()) {
 				gOK = append(gOK, g)
 			}
 		}
@@ -89,9 +86,9 @@ func checkC15(e *Engine, r *Report) {
 			return
 		}
 		// the tested account is the one being destroyed
-		sl := backSlice(getAcc.Common().Args[len(getAcc.Common().Args)-1], SliceOpts{ThroughCallArgs: alwaysThrough})
+		sl := reg.Slice(getAcc.Common().Args[len(getAcc.Common().Args)-1])
 		r.Check(sl.HasValue(addrP), "DestroyAccount › tested account is the destroyed address", e.Pos(getAcc.Pos()), "GetAccount(currentCtx, addr)", "the account tested for protection is not the address being destroyed")
-		sl2 := backSlice(check.Common().Args[0], SliceOpts{})
+		sl2 := reg.Slice(check.Common().Args[0])
 		r.Check(sl2.HasValue(getAcc.(ssa.Value)), "DestroyAccount › test applies to the loaded account", e.Pos(check.Pos()), "Check…(acc, …)", "the protection test is not applied to the loaded account")
 		r.Check(len(gOK) > 0, "DestroyAccount › protected account panics", e.Pos(check.Pos()), "the not-destroyable edge ends in panic", "the not-destroyable edge of the protection test does not abort (panic): a protected account is destroyed anyway")
 		both := append(append([]Guard{}, gNil...), gOK...)
@@ -103,7 +100,7 @@ func checkC15(e *Engine, r *Report) {
 			if name == "RemoveAccount" {
 				gs = gOK
 			}
-			r.Check(mustPass(da, c, gs), "DestroyAccount › "+name+" guarded", e.Pos(c.Pos()), "dominated by acc == nil || destroyable", name+" is reachable for an existing account that did not pass the protected-account test (module account / unexpired vesting account destroyed or emptied)")
+			r.Check(sg.MustPass(c, gs), "DestroyAccount › "+name+" guarded", e.Pos(c.Pos()), "dominated by acc == nil || destroyable", name+" is reachable for an existing account that did not pass the protected-account test (module account / unexpired vesting account destroyed or emptied)")
 		}
 		// who may call
 		nRem, nDes := 0, 0
@@ -123,7 +120,7 @@ func checkC15(e *Engine, r *Report) {
 					continue
 				}
 				nRem++
-				r.Check(top == da, "who removes auth accounts › "+fnKey(f), e.Pos(c.Pos()), "only DestroyAccount", "AccountKeeper.RemoveAccount is called outside DestroyAccount: the protected-account test is bypassed")
+				r.Check(reg.in[top], "who removes auth accounts › "+fnKey(f), e.Pos(c.Pos()), "only DestroyAccount", "AccountKeeper.RemoveAccount is called outside DestroyAccount: the protected-account test is bypassed")
 			}
 			for _, c := range callsIn(f, false, func(c ssa.CallInstruction) bool { return isMethodNamed(c, "DestroyAccount") }) {
 				fo := calleeObj(c)
@@ -431,6 +428,11 @@ func checkC15(e *Engine, r *Report) {
 		r.Check(hasSeq && all(gSeq), "IsEmptyAccount › nonce", e.Pos(fn.Pos()), "true only if the account is absent or its sequence is 0", "an account with a non-zero nonce can be reported empty")
 		// storage
 		var gState []Guard
+		type flagAfter struct {
+			a *ssa.Alloc
+			c ssa.CallInstruction
+		}
+		var flags []flagAfter
 		for _, c := range callsTo(fn, false, CallSpec{pkgEvmKeeper, "Keeper", "ForEachStorage"}) {
 			args := c.Common().Args
 			mc, ok := args[len(args)-1].(*ssa.MakeClosure)
@@ -461,9 +463,33 @@ func checkC15(e *Engine, r *Report) {
 						gState = append(gState, Guard{If: i, Survive: 1})
 					}
 				}
+				flags = append(flags, flagAfter{a, c})
 			}
 		}
-		r.Check(all(gState), "IsEmptyAccount › storage", e.Pos(fn.Pos()), "true only if ForEachStorage found no entry", "an account that still has storage can be reported empty")
+		// `return !anyState`: the returned value itself is the negated flag, read after the iteration
+		negFlag := func(ret *ssa.Return) bool {
+			n, ok := ret.Results[0].(*ssa.UnOp)
+			if !ok || n.Op != token.NOT {
+				return false
+			}
+			u, ok := n.X.(*ssa.UnOp)
+			if !ok || u.Op != token.MUL {
+				return false
+			}
+			for _, fl := range flags {
+				if u.X == ssa.Value(fl.a) && dominatesInstr(fl.c.(ssa.Instruction), u) {
+					return true
+				}
+			}
+			return false
+		}
+		okState := len(trueRets) > 0 && (len(gState) > 0 || len(flags) > 0)
+		for _, ret := range trueRets {
+			if !(len(gState) > 0 && mustPass(fn, ret, gState)) && !negFlag(ret) {
+				okState = false
+			}
+		}
+		r.Check(okState, "IsEmptyAccount › storage", e.Pos(fn.Pos()), "true only if ForEachStorage found no entry", "an account that still has storage can be reported empty")
 	})
 
 	r.Rule("R5", "PAIR", "every normal exit of DestroyAccount has removed the auth account (if any), burnt ALL balances (if any), deleted the code hash and deleted every storage key", 5, func() {
@@ -476,7 +502,7 @@ func checkC15(e *Engine, r *Report) {
 				return false
 			}
 			for _, ret := range rets {
-				if !passesOr(da, ret, via, bypass) {
+				if !sg.PassesOr(ret, via, bypass) {
 					return false
 				}
 			}
@@ -486,7 +512,7 @@ func checkC15(e *Engine, r *Report) {
 		// burn: bypass = zero-balance edge
 		var gZero []Guard
 		if burn != nil {
-			gZero = boolCallGuards(da, true, func(c *ssa.Call) bool {
+			gZero = reg.BoolCallGuards(true, func(c *ssa.Call) bool {
 				return isMethodNamed(c, "IsZero") && backSlice(recvOperand(c), SliceOpts{}).Has(func(v ssa.Value) bool {
 					cc, ok := v.(*ssa.Call)
 					return ok && isMethodNamed(cc, "GetAllBalances")
@@ -502,7 +528,7 @@ func checkC15(e *Engine, r *Report) {
 				if !ok || !isMethodNamed(cc, "GetAllBalances") {
 					return false
 				}
-				return backSlice(cc.Call.Args[len(cc.Call.Args)-1], SliceOpts{ThroughCallArgs: alwaysThrough}).HasValue(addrP)
+				return reg.Slice(cc.Call.Args[len(cc.Call.Args)-1]).HasValue(addrP)
 			})
 			r.Check(okB, "DestroyAccount › burns every denomination", e.Pos(burn.Pos()), "burnCoins(addr, GetAllBalances(addr))", "the burnt amount is not the account's GetAllBalances (coins of other denominations survive the account)")
 		}
